@@ -3,6 +3,7 @@ package respgen
 import (
 	"bytes"
 	"math/rand"
+	"net/http"
 	"strconv"
 	"strings"
 )
@@ -116,11 +117,16 @@ func Gen(rng *rand.Rand, e *Env) *Program {
 		if rng.Intn(2) == 0 {
 			trailerKeys = append(trailerKeys, "X-Checksum")
 		}
+		lower := rng.Intn(100) < 12 // header names are case-insensitive: "Trailer: x-a" declares X-A
 		if len(trailerKeys) == 2 && rng.Intn(2) == 0 {
 			pre = append(pre, Op{K: "set", Key: "Trailer", Val: "X-A, X-Checksum"})
 		} else {
 			for _, k := range trailerKeys {
-				pre = append(pre, Op{K: "add", Key: "Trailer", Val: k})
+				if lower {
+					pre = append(pre, Op{K: "add", Key: "Trailer", Val: strings.ToLower(k)})
+				} else {
+					pre = append(pre, Op{K: "add", Key: "Trailer", Val: k})
+				}
 			}
 		}
 		for _, k := range trailerKeys {
@@ -432,6 +438,16 @@ func Minimize(p *Program, budget int, fails func(*Program) bool) *Program {
 			case cur.Ops[i].K == "readfrom" && cur.Ops[i].Src == "limited-file":
 				q := cur.Clone()
 				q.Ops[i].Src = "limited-plain"
+				changed = try(q) || changed
+			case cur.Ops[i].Key == "Trailer" && cur.Ops[i].K != "del" && cur.Ops[i].Val != http.CanonicalHeaderKey(cur.Ops[i].Val):
+				q := cur.Clone()
+				q.Ops[i].Val = http.CanonicalHeaderKey(q.Ops[i].Val)
+				changed = try(q) || changed
+			}
+			if cur.Ops[i].K == "readfrom" {
+				// a ReadFrom that behaves like a Write is not what the failure is about
+				q := cur.Clone()
+				q.Ops[i] = Op{K: "write", N: cur.Ops[i].N}
 				changed = try(q) || changed
 			}
 		}
